@@ -27,8 +27,12 @@ GROUPS = {
     "mx": dict(gens=["Mx"], mats=[(1, 0, 0, 1), (-1, 0, 0, 1)]),
     "c4v": dict(gens=["C4z", "Mx"], mats=[(1, 0, 0, 1), (0, -1, 1, 0), (-1, 0, 0, -1), (0, 1, -1, 0),
                                           (-1, 0, 0, 1), (1, 0, 0, -1), (0, 1, 1, 0), (0, -1, -1, 0)]),
+    # hexagonal lattice (matrices in reduced reciprocal coordinates; cells are not mapped onto cells)
+    "h3": dict(gens=["C3z"], hex=True, mats=[(1, 0, 0, 1), (-1, -1, 1, 0), (0, 1, -1, -1)]),
+    "h6": dict(gens=["C6z"], hex=True, mats=[]),
+    "h3m": dict(gens=["C3z", "Mx"], hex=True, mats=[]),
 }
-GROUP_TLA = {"none": "GNone", "inv": "GInv1", "c4": "GC4", "mx": "GMx", "c4v": "GC4v"}
+GROUP_TLA = {"none": "GNone", "inv": "GInv1", "c4": "GC4", "mx": "GMx", "c4v": "GC4v", "h3": "GH3", "h6": "GH6", "h3m": "GH3m"}
 
 
 class Geometry:
@@ -84,6 +88,8 @@ class NonIntegral(Exception):
 
 def make_system(geo):
     lat = np.eye(3)
+    if GROUPS[geo.group].get("hex"):
+        lat = np.array([[1, 0, 0], [-0.5, np.sqrt(3) / 2, 0], [0, 0, 1.]])
     with quiet():
         syst = wb.system.System_R.from_sparse(real_lattice=lat, wannier_centers_red=np.zeros((1, 3)),
                                               matrices={'Ham': {(0, 0, 0): {(0, 0): 1.0}, (1, 0, 0): {(0, 0): 0.5}, (-1, 0, 0): {(0, 0): 0.5}}})
@@ -254,7 +260,10 @@ class World:
                 st = "cleared"
             else:
                 st = "none"
-            out.append([cell[0], cell[1], int(K.refinement_level), self.geo.weight(K.factor), bool(K.was_evaluated_flag), st])
+            sp = 0
+            if K.result_storage_path is not None:
+                sp = int(os.path.basename(K.result_storage_path).split("-")[-1].split(".")[0]) + 1
+            out.append([cell[0], cell[1], int(K.refinement_level), self.geo.weight(K.factor), bool(K.was_evaluated_flag), st, sp])
         return out
 
     def proj_result(self, res, K_list):
@@ -339,7 +348,7 @@ class World:
                     ev["disk"] = self.disk_state()
             elif event == "BeginProcess":
                 self.cur_selK = list(f["selK"])
-                ev.update(sel=[int(i) + 1 for i in f["selK"]], par=bool(f["parallel"]))
+                ev.update(sel=[int(i) + 1 for i in f["selK"]], par=bool(f["parallel"]), kl=self.proj_klist(f["K_list"]))
             elif event in ("Eval", "Collect"):
                 ev.update(k=int(f["ik"]) + 1, kl=self.proj_klist(f["K_list"]),
                           rsum=self.proj_result(f["result_sum"], f["K_list"]))
